@@ -27,7 +27,38 @@ fn direction_rule(g: &fn_graph::FnGraph<Acc>, user_edges: usize, desc: &str) {
     }
 }
 
+/// child mode: build a deep chain on a thread with a small stack (a build whose stack use grows with the depth of the graph
+/// overflows it and the process is killed - which only a parent process can observe)
+fn deep_chain_child(n: usize, reversed_ids: bool, stack: usize) {
+    let h = std::thread::Builder::new().stack_size(stack).spawn(move || {
+        let mut b = FnGraphBuilder::new();
+        let ids: Vec<FnId> = (0..n).map(|i| b.add_fn(Acc { id: i, reads: vec![], writes: if i == 0 || i == n - 1 { vec![0] } else { vec![] } })).collect();
+        // the chain runs from the highest id down to the lowest (last step declared first) or the other way round
+        for i in 0..n - 1 { if reversed_ids { b.add_logic_edge(ids[i + 1], ids[i]).unwrap(); } else { b.add_logic_edge(ids[i], ids[i + 1]).unwrap(); } }
+        let g = b.build();
+        let want: Vec<usize> = (0..n).map(|i| if reversed_ids { n - 1 - i } else { i }).collect();
+        if g.ranks().iter().map(|r| r.0).collect::<Vec<_>>() != want { println!("VIOLATION (C11/C13: ranks of a chain of {n} are wrong)"); std::process::exit(1); }
+    }).unwrap();
+    if h.join().is_err() { println!("VIOLATION (C11: build() of a chain of {n} functions panicked)"); std::process::exit(1); }
+}
+
 fn main() {
+    let args: Vec<String> = std::env::args().collect();
+    if args.len() == 5 && args[1] == "--deep-chain" {
+        deep_chain_child(args[2].parse().unwrap(), args[3] == "rev", args[4].parse().unwrap());
+        return;
+    }
+    // deep chains in both id orders, each built in a child process on a 256 KiB thread (Rust's spawned threads default to 2 MiB,
+    // other platforms' to less): build() must not need stack in proportion to the depth of the graph
+    for (n, order) in [(600usize, "rev"), (600, "fwd")] {
+        let out = std::process::Command::new(std::env::current_exe().unwrap()).args(["--deep-chain", &n.to_string(), order, "262144"]).output().expect("child");
+        let txt = String::from_utf8_lossy(&out.stdout).to_string() + &String::from_utf8_lossy(&out.stderr);
+        if !out.status.success() {
+            let why = txt.lines().find(|l| l.contains("VIOLATION") || l.contains("overflowed its stack")).unwrap_or("").to_string();
+            println!("VIOLATION (C11: build() is not total): a chain of {n} functions ({order} id order) built on a thread with a 256 KiB stack ended with {:?}: {why}", out.status);
+            std::process::exit(1);
+        }
+    }
     let seed = std::env::var("VERIF_SEED").ok().and_then(|s| s.parse().ok()).unwrap_or(1u64);
     let mut rng = Lcg(seed.wrapping_mul(104729) + 3);
     for round in 0..6000 {
